@@ -1,4 +1,7 @@
 import Norad.Props.C18
+#print axioms C18.ds_roundtrip
+#print axioms C18.ds_roundtrip_processing_last
+#print axioms C18.ds_roundtrip_counterexample_empty_map
 #print axioms C18.plist_glue_roundtrip
 #print axioms C18.plist_glue_roundtrip_dict
 #print axioms C18.plist_glue_roundtrip_counterexample
